@@ -80,8 +80,8 @@ fn ref_singular(r: &Robot, j: &Joints) -> bool {
 }
 
 pub fn entry_record(rng: &mut Rng, idx: u64) {
-    let kinds = [PoseKind::Reachable, PoseKind::Sing0, PoseKind::Reachable, PoseKind::SingPi, PoseKind::Sing0, PoseKind::Random];
-    let kind = kinds[(idx % 6) as usize];
+    let kinds = [PoseKind::Reachable, PoseKind::Sing0, PoseKind::Reachable, PoseKind::SingPi, PoseKind::Sing0, PoseKind::Random, PoseKind::NearSing];
+    let kind = kinds[(idx % 7) as usize];
     let mut r = random_robot(rng, idx, false, None);
     if idx % 5 == 2 { r.p.dof = 5; }
     let (pose, origin) = make_pose(rng, &r, kind);
@@ -98,7 +98,7 @@ pub fn entry_record(rng: &mut Rng, idx: u64) {
     // CONSTRAINT_CENTERED matters with constraints: give it a fair share there
     if r.cons.is_some() && rng.below(3) == 0 { prev = sentinel(); }
     // perturb J4/J6 of prev on singular poses (the interesting continuation case)
-    if matches!(kind, PoseKind::Sing0 | PoseKind::SingPi) && !prev[0].is_nan() && rng.bool() {
+    if matches!(kind, PoseKind::Sing0 | PoseKind::SingPi | PoseKind::NearSing) && !prev[0].is_nan() && rng.bool() {
         let d = dy(rng.range(-1.0, 1.0), 16);
         prev[3] += d * r.p.sign_corrections[3] as f64; prev[5] -= d * r.p.sign_corrections[5] as f64;
     }
